@@ -104,7 +104,11 @@ def norm(x):
     if isinstance(x, (set, frozenset)):
         return ('s',) + tuple(sorted(repr(norm(y)) for y in x))
     if isinstance(x, BaseException):
-        return ('exc', type(x).__name__, str(x))
+        try:
+            text = str(x)
+        except Exception:           # noqa: BLE001 - an exception class whose __str__ fails (progs._MuteBoom)
+            text = repr(x.args)
+        return ('exc', type(x).__name__, text)
     return ('obj', type(x).__name__, repr(x))
 
 
